@@ -127,7 +127,7 @@ def suite_tstep(ctx, n):
     lines = [E.case_line("large", d, e) for d, e in cases]
     H, _ = E.run_batches(ctx, lines, want_driver=False)
     M = ctx.driver_lines("tstep", ["\t".join(l.split("\t")[:3]) for l in lines], timeout=1800)
-    st = dict(inputs=len(cases), agree=0, violations=0)
+    st = dict(inputs=len(cases), agree=0, known=0, violations=0)
     for (d, evs), l, h, m in zip(cases, lines, H, M):
         toks = h.split(" ")
         cfgs = [toks[i + 1] for i, t in enumerate(toks[:-1]) if t == "ret:MICROSTEPPED" and toks[i + 1].startswith("cfg:")]
@@ -138,6 +138,17 @@ def suite_tstep(ctx, n):
         if "DIVERGE" in toks or " ".join(seq) == m:
             st["agree"] += 1
             continue
+        if charts.has_nested_targetless_pair(d) and "nested-targetless" in ctx.findings:
+            # the recorded deviation of the transpilers' selection (every transition a candidate, static conflict table): known only
+            # if the oracle behaves exactly like Appendix D with that selection
+            _, T = E.run_batches(ctx, [E.case_line("spect", d, evs)], want_harness=False, nproc=1)
+            tt = T[0].split(" ")
+            tc = [tt[i + 1] for i, t in enumerate(tt[:-1]) if t == "ret:MICROSTEPPED" and tt[i + 1].startswith("cfg:")]
+            ts = []
+            for c in tc:
+                if not ts or ts[-1] != c: ts.append(c)
+            if "DIVERGE" in tt or " ".join(ts) == m:
+                st["known"] += 1; ctx.known("nested-targetless", ""); continue
         st["violations"] += 1
         if len(ctx.violations) < 4:
             ctx.violation("tstep-%d" % len(ctx.violations), "tstep", [l], found_input=False,
